@@ -67,14 +67,22 @@ type scenario struct {
 	Size    int `json:"size"`
 	SrcKind int `json:"src"`
 	DstKind int `json:"dst"`
+	// SamePair: an earlier CopyFile with the same two path strings came first,
+	// made when nothing existed yet under the destination name (whatever it
+	// created there is removed again before the destination side is laid out)
+	SamePair bool `json:"same_pair,omitempty"`
 }
 
 // what an earlier call of a history is drawn from
-var preSizes = []int{1, 3, 4, 6} // indices into sizes: 1, 32768, 32769, 100000
+var preSizes = []int{1, 3, 4, 6}        // indices into sizes: 1, 32768, 32769, 100000
 var preDst = []int{0, 2, 8, 10, 12, 13} // missing, existing-longer, hardlink-of-source, parent-missing, other-mount-*
 
 func (s scenario) String() string {
-	return fmt.Sprintf("%s(size=%d, src=%s, dst=%s)", []string{"CopyFile", "MoveFile"}[s.Op], sizes[s.Size], srcKinds[s.SrcKind], dstKinds[s.DstKind])
+	sp := ""
+	if s.SamePair {
+		sp = ", after an earlier CopyFile of the same two paths"
+	}
+	return fmt.Sprintf("%s(size=%d, src=%s, dst=%s%s)", []string{"CopyFile", "MoveFile"}[s.Op], sizes[s.Size], srcKinds[s.SrcKind], dstKinds[s.DstKind], sp)
 }
 
 func content(n int, salt byte) []byte {
@@ -107,11 +115,41 @@ type fsops interface {
 	mkdir(p string)
 	symlink(target, link string)
 	link(oldp, newp string)
+	remove(p string)
 	root() string // prefix of device 1 work dir
 	root2() string
 }
 
+// samePairApplies: destination layouts whose destination is a name of its own
+// (not a spelling of the source's name, no helper directory in its path).
+func samePairApplies(s scenario) bool {
+	switch dstKinds[s.DstKind] {
+	case "same-path", "dot-slash-spelling", "dotdot-spelling", "through-directory-symlink", "through-directory-symlink-other-name":
+		return false
+	}
+	return true
+}
+
+// build returns the two paths and the steps that lay the scenario out; the
+// first nSrc steps create the source side.
 func build(s scenario) (src, dst string, steps []func(fsops)) {
+	src, dst, steps, _ = build2(s)
+	return
+}
+
+func build2(s scenario) (string, string, []func(fsops), int) {
+	src, dst, steps := buildAll(s)
+	return src, dst, steps, nSrcSteps(s)
+}
+
+func nSrcSteps(s scenario) int {
+	if s.SrcKind == 1 {
+		return 0
+	}
+	return 1
+}
+
+func buildAll(s scenario) (src, dst string, steps []func(fsops)) {
 	data := content(sizes[s.Size], 1)
 	src = "W/src.bin"
 	switch s.SrcKind {
@@ -202,6 +240,7 @@ func (o simOps) write(p string, d []byte)    { o.f.WriteFile(o.p(p), d) }
 func (o simOps) mkdir(p string)              { o.f.MkdirAll(o.p(p)) }
 func (o simOps) symlink(target, link string) { o.f.SymlinkRaw(o.p(target), o.p(link)) }
 func (o simOps) link(a, b string)            { o.f.LinkRaw(o.p(a), o.p(b)) }
+func (o simOps) remove(p string)             { o.f.RemoveRaw(o.p(p)) }
 func (o simOps) root() string                { return "/work" + o.sub }
 func (o simOps) root2() string               { return "/mnt2" + o.sub }
 
@@ -305,6 +344,7 @@ func (w *world) main() {
 		}
 		hist = append(hist, c)
 	}
+	mainCall.sc.SamePair = ch("sc.samepair", 4) == 3
 	hist = append(hist, mainCall)
 	if nPre > 0 {
 		simrt.Probe("history_with_earlier_calls")
@@ -362,8 +402,26 @@ func (w *world) doCall(f *sos.FS, c call, last bool) result {
 	s := c.sc
 	w.sc = s
 	o := simOps{f, c.sub}
-	src, dst, steps := build(s)
-	for _, st := range steps {
+	src, dst, steps, nSrc := build2(s)
+	for _, st := range steps[:nSrc] {
+		st(o)
+	}
+	if s.SamePair && samePairApplies(s) {
+		// the earlier call on the same two path strings (fault-free)
+		simrt.Probe("same_pair_history")
+		f.PlanK = map[int]int{}
+		before := f.Lookup(o.p(src))
+		var snap0 []byte
+		if before != nil {
+			snap0 = append([]byte(nil), before.Data...)
+		}
+		_, err0 := osutil.CopyFile(o.p(src), o.p(dst))
+		if after := f.Lookup(o.p(src)); before != nil && before.IsRegular() && (after == nil || !bytes.Equal(after.Data, snap0)) {
+			w.violate("copy-error-source-damaged", fmt.Sprintf("the earlier CopyFile (returned %v) damaged the source", err0))
+		}
+		o.remove(dst)
+	}
+	for _, st := range steps[nSrc:] {
 		st(o)
 	}
 	f.PlanK = map[int]int{}
@@ -472,6 +530,7 @@ func (o realOps) write(p string, d []byte)    { must(os.WriteFile(o.p(p), d, 064
 func (o realOps) mkdir(p string)              { must(os.MkdirAll(o.p(p), 0755)) }
 func (o realOps) symlink(target, link string) { must(os.Symlink(o.p(target), o.p(link))) }
 func (o realOps) link(a, b string)            { must(os.Link(o.p(a), o.p(b))) }
+func (o realOps) remove(p string)             { os.Remove(o.p(p)) }
 func (o realOps) root() string                { return o.w }
 func (o realOps) root2() string               { return o.m }
 
@@ -547,8 +606,15 @@ func realHistory(scs []scenario) (out []result, err error) {
 		o := realOps{filepath.Join(wdir, fmt.Sprint("c", i)), filepath.Join(mdir, fmt.Sprint("c", i))}
 		must(os.MkdirAll(o.w, 0755))
 		must(os.MkdirAll(o.m, 0755))
-		src, dst, steps := build(s)
-		for _, st := range steps {
+		src, dst, steps, nSrc := build2(s)
+		for _, st := range steps[:nSrc] {
+			st(o)
+		}
+		if s.SamePair && samePairApplies(s) {
+			realosutil.CopyFile(o.p(src), o.p(dst))
+			o.remove(dst)
+		}
+		for _, st := range steps[nSrc:] {
 			st(o)
 		}
 		var rerr error
@@ -620,6 +686,20 @@ func enumerate(prop string) [][]int {
 			}
 			for k := 0; k < n; k++ {
 				out = append(out, append(append([]int{}, s.choices...), 1, i, k))
+			}
+		}
+	}
+	// (b2) every scenario whose destination is a name of its own, fault-free,
+	// after an earlier CopyFile of the same two path strings
+	for op := 0; op < 2; op++ {
+		for size := range sizes {
+			for sk := range srcKinds {
+				for dk := range dstKinds {
+					if samePairApplies(scenario{DstKind: dk}) {
+						c := append(append([]int{}, prefix...), op, size, sk, dk)
+						out = append(out, append(c, 0, 0, 3))
+					}
+				}
 			}
 		}
 	}
